@@ -29,7 +29,7 @@ package http2
 //@ func (*writeQueue).consume :: q, n -> wr, ok
 //@   props C20,C12
 //@   requires q != nil && wfQueue(q)
-//@   assigns q.s, stream.flow.n
+//@   assigns q.s, outflow.n
 //@   ensures [C20:empty-queue-yields-nothing] len(old(q.s)) == 0 ==> !ok && q.s == old(q.s)
 //@   ensures [C20:blocked-head-stays] !ok ==> q.s == old(q.s)
 //@   ensures [C20:order-kept] ok ==> len(old(q.s)) > 0 && (q.s == old(q.s)[1:] || (len(q.s) == len(old(q.s)) && q.s[1:] == old(q.s)[1:] && isData(old(q.s)[0]) && isData(q.s[0]) && isData(wr) && dataOf(wr).p ++ dataOf(q.s[0]).p == old(dataOf(q.s[0]).p) && q.s[0].stream == old(q.s)[0].stream))
